@@ -155,6 +155,17 @@ def gen_cyclic(seed, tier, rng):
 def gen_c10(seed, tier):
     rng0 = worldgen.child_rng(seed, "c10")
     flaky = rng0.random() < 0.5
+    if seed % 5 == 0:
+        # registry worlds: retry also wraps store operations and modified-time queries
+        desc = _registry_fault_desc(seed, tier, "c10r")
+        op = desc["ops"][0]
+        op["cfg"]["retry"] = rng0.choice([2, 3, 4, ["custom", 2], ["custom", 3]])
+        for f in op["faults"]["stores"]:
+            f["until"] = rng0.choice([None, 1, 2, 5])
+        for f in op["faults"]["calls"].values():
+            f["exc"] = rng0.choice(["E1", "E2"])
+            f["until"] = rng0.choice([None, 1, 2])
+        return desc
     desc, rng = base_desc(seed, tier, p_dep=0.3, durs=(0.0, 1.0, 1.0, 2.0, 5.0))
     world = desc["world"]
     op = desc["ops"][0]
@@ -183,7 +194,7 @@ def gen_c15(seed, tier):
     if "faults" in op:
         for f in op["faults"]["calls"].values():
             if rng.random() < 0.7:
-                f["exc"] = rng.choice(["E1", "E2"])
+                f["exc"] = rng.choice(["E1", "E2", "CallError", "NodeError"])
     return desc
 
 
@@ -551,3 +562,177 @@ def sched_abort():
 
 GEN["C13"] = gen_c13
 EXEC["C13"] = exec_c13
+
+
+# ---- C01 direct: run_function_on_graph on random multigraphs -----------------
+def gen_direct(seed, tier):
+    rng = worldgen.child_rng(seed, "direct")
+    n = rng.randrange(2, 14 if tier == "quick" else 40)
+    edges = []
+    for v in range(1, n):
+        for _ in range(rng.choice([0, 1, 1, 2, 3])):
+            u = rng.randrange(0, v)
+            edges.append([u, v, rng.randrange(0, 3)])   # parallel edges through distinct keys
+    return dict(seed=seed, mode="direct", n=n, edges=edges,
+                workers=rng.choice([1, 2, 2, 3, 4, n + 2]),
+                scheduler=rng.choice(["cheap", "cheap", "random", "default", None]),
+                durs=[rng.choice([0.0, 0.0, 0.0, 1.0, 3.0]) for _ in range(n)],
+                fail=sorted(rng.sample(range(n), rng.choice([0, 0, 0, 1, 2]) if n > 2 else 0)),
+                max_errors=rng.choice([0, 0, 1, None]),
+                sched=worldgen.gen_sched(rng, est_steps=1500))
+
+
+def exec_direct(prop, desc):
+    import networkx as nx
+    from uberjob._errors import NodeError
+    from uberjob._execution.run_function_on_graph import run_function_on_graph
+    from simkit import sched as S
+    from simkit import shims
+    import random as _random
+
+    n = desc["n"]
+    g = nx.MultiDiGraph()
+    g.add_nodes_from(range(n))
+    for u, v, k in desc["edges"]:
+        g.add_edge(u, v, k)
+    anc = {v: nx.ancestors(g, v) for v in g}
+    sc = desc["sched"]
+    tapes = desc.get("tapes") or {}
+    strategy = ("tape", tapes["0"]) if "0" in tapes else tuple(sc["strategy"])
+    sim = S.Sim(machine.mix_seed(desc["seed"], "direct"), strategy=strategy)
+    state = dict(inflight=0, max_inflight=0)
+    raised = {}
+
+    def fn(node):
+        sim.log("call-start", node, 1)
+        state["inflight"] += 1
+        state["max_inflight"] = max(state["max_inflight"], state["inflight"])
+        try:
+            sim.sleep(desc["durs"][node], ("node", node))
+            if node in desc["fail"]:
+                e = raised[node] = RuntimeError(f"node {node}")
+                sim.log("call-end", node, 1, "fail", "RuntimeError")
+                raise e
+            sim.log("call-end", node, 1, "ok", "")
+        finally:
+            state["inflight"] -= 1
+
+    def client():
+        run_function_on_graph(g, fn, worker_count=desc["workers"], max_errors=desc["max_errors"],
+                              scheduler=desc["scheduler"])
+
+    _random.seed(machine.mix_seed(desc["seed"], "random"))
+    shims.reset_node_table()
+    shims.install(gran=sc.get("gran", "opcode"))
+    try:
+        res, exc = sim.run(client)
+    finally:
+        shims.uninstall()
+    viol = []
+    starts, ends = {}, {}
+    for ev in sim.events:
+        if ev[3] == "call-start":
+            starts.setdefault(ev[4], []).append(ev[0])
+        elif ev[3] == "call-end":
+            ends.setdefault(ev[4], []).append((ev[0], ev[6]))
+    failed = {v for v, e in ends.items() if any(s != "ok" for _, s in e)}
+    if sim.hung is not None:
+        viol.append(O.V("hang", f"run_function_on_graph did not terminate: {sim.hung['why']} {sim.hung['threads'][:3]}"))
+    elif sim.leaked or sim.thread_deaths:
+        viol.append(O.V("thread-leak", f"threads left or died: {sim.leaked} {sim.thread_deaths}"))
+    else:
+        for v, ss in starts.items():
+            if len(ss) != 1:
+                viol.append(O.V("executed-twice", f"node {v} processed {len(ss)} times"))
+                break
+            for a in anc[v]:
+                ok = [s for s, st in ends.get(a, ()) if st == "ok"]
+                if not ok or ok[0] > ss[0]:
+                    viol.append(O.V("start-after-deps", f"node {v} started at seq {ss[0]} before ancestor {a} finished ok ({ok})"))
+                    break
+            if viol:
+                break
+        if not viol and state["max_inflight"] > desc["workers"]:
+            viol.append(O.V("max-workers-exceeded", f"{state['max_inflight']} nodes in flight with worker_count={desc['workers']}"))
+        if not viol and not failed:
+            if exc is not None:
+                viol.append(O.V("spurious-error", f"no node failed but {exc!r} was raised"))
+            elif set(starts) != set(range(n)):
+                viol.append(O.V("needed-set", f"processed {sorted(starts)} of {n} nodes"))
+        if not viol and failed:
+            if not isinstance(exc, NodeError):
+                viol.append(O.V("no-callerror", f"nodes {sorted(failed)} failed but run_function_on_graph "
+                                                f"{'returned' if exc is None else 'raised ' + repr(exc)}"))
+            elif exc.node not in failed or exc.__cause__ is not raised.get(exc.node):
+                viol.append(O.V("error-names-unfailed", f"NodeError names {exc.node} / cause {exc.__cause__!r}; failed {sorted(failed)}"))
+            else:
+                bad = [v for v in starts if anc[v] & failed]
+                if bad:
+                    viol.append(O.V("downstream-of-failure", f"nodes {bad} started although an ancestor failed"))
+                elif desc["max_errors"] is None:
+                    should = {v for v in range(n) if not (anc[v] & set(desc["fail"]))}
+                    if set(starts) != should:
+                        viol.append(O.V("max-errors-none", f"processed {sorted(starts)}, expected {sorted(should)}"))
+    import hashlib
+
+    il = sim.interleaving_digest()
+    wd = hashlib.sha256(repr((desc["n"], desc["edges"], desc["workers"], desc["scheduler"])).encode()).hexdigest()[:12]
+    st = dict(runs=1, sub=0, steps=sim.steps, switches=sim.switches, preemptions=sim.preemptions, decisions=len(sim.tape),
+              vtime=sim.now, max_steps_run=sim.steps, fired={"direct-" + str(desc["scheduler"]): 1},
+              probes=dict(sim.probes), strategies=[sim.strategy.name], grans=[sc.get("gran")],
+              nontrivial_keys=[wd + ":" + il] if (state["max_inflight"] >= 2 or sim.preemptions) else [],
+              interleavings=[il], states=[wd + ":" + repr(sorted(failed))])
+    return dict(digest=sim.digest(), violations=viol, stats=st, tapes={"0": sim.tape} if viol else None)
+
+
+_gen_c01_plan = gen_c01
+
+
+def gen_c01(seed, tier):  # noqa: F811
+    if seed % 4 == 0:
+        return gen_direct(seed, tier)
+    return _gen_c01_plan(seed, tier)
+
+
+GEN["C01"] = gen_c01
+_execute_plain = execute
+
+
+def execute(prop, desc):  # noqa: F811
+    if desc.get("mode") == "direct":
+        return exec_direct(prop, desc)
+    return _execute_plain(prop, desc)
+
+
+# ---- C06/C07 also over registry worlds with failing store operations ----------
+from checks.history import gen_store_faults  # noqa: E402
+
+_gen_c06_plain = gen_c06
+_gen_c07_plain = gen_c07
+
+
+def _registry_fault_desc(seed, tier, tag):
+    rng0 = worldgen.child_rng(seed, tag)
+    desc, rng = base_desc(seed, tier, registry=True, p_unpack=0.0, scopes="plain", p_dep=0.3)
+    op = desc["ops"][0]
+    op["faults"] = dict(calls=worldgen.gen_call_faults(rng, desc["world"], p_fail=0.15),
+                        stores=gen_store_faults(rng, desc["world"], p=0.8))
+    op["cfg"]["max_errors"] = rng.choice([0, 0, 1, 3, None])
+    op["cfg"]["retry"] = rng.choice([None, None, 2])
+    return desc
+
+
+def gen_c06(seed, tier):  # noqa: F811
+    if seed % 3 == 0:
+        return _registry_fault_desc(seed, tier, "c06r")
+    return _gen_c06_plain(seed, tier)
+
+
+def gen_c07(seed, tier):  # noqa: F811
+    if seed % 4 == 1:
+        return _registry_fault_desc(seed, tier, "c07r")
+    return _gen_c07_plain(seed, tier)
+
+
+GEN["C06"] = gen_c06
+GEN["C07"] = gen_c07
